@@ -27,6 +27,9 @@ type Outcome struct {
 	Trace      []string       `json:"trace,omitempty"`
 	Sample     interface{}    `json:"sample,omitempty"`
 	Infra      string         `json:"infra,omitempty"` // harness trouble: exit 2, never a violation
+	// Refs are named reference values (hashes) that must agree between worker
+	// processes; the driver compares them.
+	Refs map[string]string `json:"refs,omitempty"`
 	// NonDet marks runs of the both-ready mode (DESIGN.md §2.9): the library's
 	// select may legally take either branch, so the trace is not a function of
 	// the seed and the run is excluded from the determinism self-test.
